@@ -551,6 +551,12 @@ pub fn dedicated_inputs() -> Vec<(&'static str, Mods, usize)> {
         ],
         8,
     ));
+    // references to generated vftable structs by value and by pointer, owners and embedders
+    // waiting for each other: rounds in which only a generated struct appears
+    for (i, (name, text)) in crate::resolve_props::generated_table_programs().into_iter().enumerate() {
+        let m = pyxis::parser::parse_str(text).unwrap_or_else(|e| panic!("C09 program {name} does not parse: {e:?}"));
+        out.push((name, vec![(ItemPath::from("kd_gt"), m)], if i % 2 == 0 { 8 } else { 4 }));
+    }
     out
 }
 
